@@ -554,7 +554,7 @@ impl StorageEngine {
     /// Stream operations
     
     /// Add an entry to a stream with auto-generated ID - NO CLONING!
-    pub fn xadd(&self, db: DatabaseIndex, key: Key, fields: HashMap<Vec<u8>, Vec<u8>>) -> Result<StreamId> {
+    pub fn xadd(&self, db: DatabaseIndex, key: Key, fields: impl IntoIterator<Item = (Vec<u8>, Vec<u8>)>) -> Result<StreamId> {
         let shard = self.get_shard(db, &key)?;
         let mut shard_guard = shard.write().unwrap();
         
@@ -598,7 +598,7 @@ impl StorageEngine {
     }
     
     /// Add an entry to a stream with specific ID - NO CLONING!
-    pub fn xadd_with_id(&self, db: DatabaseIndex, key: Key, id: StreamId, fields: HashMap<Vec<u8>, Vec<u8>>) -> Result<StreamId> {
+    pub fn xadd_with_id(&self, db: DatabaseIndex, key: Key, id: StreamId, fields: impl IntoIterator<Item = (Vec<u8>, Vec<u8>)>) -> Result<StreamId> {
         let shard = self.get_shard(db, &key)?;
         let mut shard_guard = shard.write().unwrap();
         
